@@ -82,7 +82,12 @@ func H_C04_Unknowing(v *sym.V) {
 	// make their type unknown to the receiver (its proto type stays registered).
 	leaves := gen.Cat(gen.LibLeaves, []gen.Kind{gen.LStd, gen.LPkg, gen.LCtxCanceled, gen.LCtxDeadline, gen.LOsNotExist, gen.LEOF, gen.LErrno,
 		gen.LUserPlain, gen.LUserFmt, gen.LUserSafeFmt, gen.LUserNonComparable, gen.LUserIs}, gen.BarrierLeaves, gen.MultiLeaves)
-	b := g.BuildUpTo("e", v.Param("D", 2), leaves, gen.AllWrappers)
+	var b *gen.B
+	if v.Param("reps", 0) == 1 {
+		b = g.BuildTiered("e", v.Param("D", 2), gen.RepLeaves, gen.RepWrappers, gen.AllWrappers)
+	} else {
+		b = g.BuildTiered("e", v.Param("D", 2), leaves, gen.AllWrappers, gen.AllWrappers)
+	}
 	e := b.Err
 	enc := wire.Copy(wire.Encode(e))
 	n := wire.Count(enc)
